@@ -634,10 +634,29 @@ def sib_entry(ctx: Ctx) -> List[Ob]:
                         return True
             return False
 
+        def is_test(n: N) -> bool:
+            if n.kind != "test":
+                return False
+            t = norm(n.ast)
+            return ("_data_id" in t and "hash(" in t) or any(nm in {x.id for x in ast.walk(n.ast) if isinstance(x, ast.Name)} for nm in custom_names)
+
         rets = [n for n in cfg.stmt_nodes() if n.kind == "stmt" and isinstance(n.ast, ast.Return)]
         for r in rets:
             ok = cfg.dominated_by(r, discharges)
             p = None if ok else cfg.find_path(cfg.entry, r, avoid=lambda n: n is not r and discharges(n))
+            if ok and isinstance(r.ast.value, ast.Name):
+                # what is returned must be the delegate's entry, or an entry built here that passed the custom-id test
+                from .util import reaching_values
+
+                for v_ in reaching_values(ctx, f, r.ast, r.ast.value):
+                    deleg = isinstance(v_, ast.Call) and any(g.qualname == "Node._make_list_entry" and g is not f for g, _ in ctx.env.callees(f, v_))
+                    if deleg or not isinstance(v_, (ast.Dict, ast.Call)):
+                        continue
+                    dn = cfg.stmt_node_of(v_, m.parent_of)
+                    if dn is not None:
+                        p2 = cfg.find_path(dn, r, avoid=lambda n: n is not r and is_test(n), strict=True)
+                        if p2 is not None:
+                            ok, p = False, p2
             obs.append(ctx.ob("SIB-ENTRY", ["C05", "C12"], f, f"{norm(r.ast)}: custom data_id considered on every path", r.ast, ok,
                               "" if ok else "an entry is returned without testing for / storing a custom data_id: the node reloads under hash(data)",
                               describe_path(p) if p else None))
